@@ -29,7 +29,7 @@ RULE = ("generated documents: 1-3 pages of positioned text runs (horizontal line
         "latin-1, cp1252-only, BMP and astral characters and multi-character values; font names and form/image "
         "XObject names drawn from the same alphabet; nested form XObjects, image XObjects, lines, rectangles, curves, "
         "g/rg/k colours; crossed with LAParams (None, default, boxes_flow None, detect_vertical, all_texts, margins), "
-        "output type text|xml, sink StringIO|BytesIO+codec (utf-8, utf-16, utf-16-le, latin-1, cp1252), strip_control. "
+        "output type text|xml, sink StringIO|BytesIO+codec (utf-8, utf-16, utf-16-le, latin-1, cp1252, utf-32, utf-8-sig; the codecs with a byte-order mark show a second mark as a stray U+FEFF), strip_control. "
         "A case is one (document, laparams, output type, sink, strip) evaluation; non-trivial when the document has at "
         "least one glyph and at least one special (XML-special, control or non-ASCII) character in a text or a name")
 TRUSTED_BASE = [
@@ -645,7 +645,7 @@ def tree_line(op: str, tree, *args: str) -> str:
 
 # ------------------------------------------------------------------ one case
 
-CODECS = ["utf-8", "utf-16", "utf-16-le", "latin-1", "cp1252"]
+CODECS = ["utf-8", "utf-16", "utf-16-le", "latin-1", "cp1252", "utf-32", "utf-8-sig"]
 
 
 def representable(s: str, codec: str) -> bool:
@@ -678,9 +678,11 @@ def hexs(s: str) -> str:
     return s.encode("utf-8", "surrogatepass").hex() or "-"
 
 
-def eval_case(spec, la, strip: bool, codecs: List[str], want_model: bool = True) -> CaseResult:
+def eval_case(spec, la, strip: bool, codecs: List[str], want_model: bool = True,
+              only: Optional[str] = None) -> CaseResult:
     """Evaluate the property on the implementation for one document / laparams / strip choice over both
-    output types, the text sink and the given binary codecs; collect model requests."""
+    output types, the text sink and the given binary codecs; collect model requests.
+    `only` ("text" | "extract_text" | "xml") restricts the evaluation to one output path (used by the shrinker)."""
     res = CaseResult()
     cfg = {"laparams": la, "strip_control": strip}
     pdf = build_pdf(spec)
@@ -727,7 +729,7 @@ def eval_case(spec, la, strip: bool, codecs: List[str], want_model: bool = True)
 
     # ---- text, text sink
     text_runs: Dict[Optional[str], Tuple[str, Any]] = {}
-    for codec in [None] + list(codecs):
+    for codec in ([None] + list(codecs)) if only in (None, "text") else []:
         try:
             out, tree = impl_convert(pdf, la, "text", codec, strip)
         except Exception as e:  # noqa: BLE001
@@ -756,6 +758,8 @@ def eval_case(spec, la, strip: bool, codecs: List[str], want_model: bool = True)
                      otype="text", codec=codec, stage="sink")
     # extract_text plumbing (default LAParams when None)
     try:
+        if only not in (None, "extract_text"):
+            raise StopIteration
         et, tree = impl_extract_text(pdf, la)
         if et != spec_text(tree):
             fail("extract_text differs from the in-order text of the layout tree", spec_text(tree), et, otype="text",
@@ -767,12 +771,15 @@ def eval_case(spec, la, strip: bool, codecs: List[str], want_model: bool = True)
             if [canon(p, text_only) for p in tree] != [canon(p, text_only) for p in dflt]:
                 fail("extract_text(laparams=None) did not lay out with the default LAParams", "same tree",
                      "different tree", stage="plumbing")
+    except StopIteration:
+        pass
     except Exception as e:  # noqa: BLE001
         fail("extract_text raised " + type(e).__name__, "text", repr(e), otype="text", stage="convert")
 
     # ---- xml
     xml_text_sink: Optional[str] = None
-    for codec in [None] + list(codecs):
+    xml_text_tree: Any = None
+    for codec in ([None] + list(codecs)) if only in (None, "xml") else []:
         if codec is not None and (xml_text_sink is None or not representable(xml_text_sink, codec)):
             continue
         try:
@@ -797,11 +804,23 @@ def eval_case(spec, la, strip: bool, codecs: List[str], want_model: bool = True)
                 res.req.append((tree_line("xmlcheck", tree, sf, "-"), "thm", "ok", {"op": "xmlcheck", **inp}))
                 res.req.append((tree_line("parse", tree, sf, hexs(out)), "spec", "ok", {"op": "parse", **inp}))
             chars = xml_text_sink = out
+            xml_text_tree = tree
         else:
             try:
                 chars = out.decode(codec)
-                res.req.append((tree_line("xml", tree, "s" if strip else "k", cps(codec)), "tie", hexs(chars),
-                                {"op": "xml", "spec": spec, "codec": codec, **cfg}))
+                sf = "s" if strip else "k"
+                inp = {"spec": spec, "codec": codec, **cfg}
+                res.req.append((tree_line("xml", tree, sf, cps(codec)), "tie", hexs(chars), {"op": "xml", **inp}))
+                if in_domain:
+                    res.req.append((tree_line("parse", tree, sf, hexs(chars)), "spec", "ok", {"op": "parse", **inp}))
+                if tree == xml_text_tree:
+                    # same hierarchy rendered: apart from the declared encoding the characters must be the same
+                    want = xml_text_sink.replace('<?xml version="1.0" ?>',
+                                                 '<?xml version="1.0" encoding="%s" ?>' % codec, 1)
+                    if chars != want:
+                        fail("binary sink decoded with its codec differs from the text sink (xml output)",
+                             first_diff(hexs(want), hexs(chars)), "see expected", otype="xml", codec=codec,
+                             stage="sink")
             except UnicodeError as e:
                 if in_domain:
                     fail("binary sink cannot be decoded with its codec (xml output)", "decodable bytes", str(e),
@@ -824,7 +843,7 @@ def check_xml(chars: str, tree, strip: bool, fail, codec) -> None:
         return
     body = chars[m.end():]
     try:
-        root = ET.fromstring(body.encode("utf-8"))
+        root = ET.fromstring(b'<?xml version="1.0" encoding="utf-8" ?>\n' + body.encode("utf-8"))
     except ET.ParseError as e:
         fail("XML output is not well-formed", "well-formed XML", f"{e}", otype="xml", stage="wf", codec=codec,
              **xml_tags(tree, strip))
@@ -928,13 +947,28 @@ def shrink_spec(spec, still) -> Dict[str, Any]:
     return cur
 
 
-def minimise(f: C.Failure) -> C.Failure:
+def path_of(f: C.Failure) -> Optional[str]:
+    """Which output path a failure belongs to (the shrinker re-evaluates only that one)."""
+    if f.what.startswith("extract_text") or f.tags.get("stage") == "extract_text":
+        return "extract_text"
+    if f.tags.get("otype") == "xml" or f.what.startswith("xml"):
+        return "xml"
+    if f.tags.get("otype") == "text" or f.what.startswith("text"):
+        return "text"
+    return None
+
+
+def minimise(f: C.Failure, deadline: float) -> C.Failure:
+    import time
     inp = f.input
     spec, la, strip = inp["spec"], inp["laparams"], inp["strip_control"]
     codec = inp.get("codec")
+    only = path_of(f)
 
     def same(spec2) -> Optional[C.Failure]:
-        r = eval_case(spec2, la, strip, [codec] if codec else [], want_model=False)
+        if time.time() > deadline:
+            return None
+        r = eval_case(spec2, la, strip, [codec] if codec else [], want_model=False, only=only)
         for g in r.failures:
             if g.what == f.what and g.tags.get("codec") == f.tags.get("codec"):
                 return g
@@ -942,6 +976,24 @@ def minimise(f: C.Failure) -> C.Failure:
     small = shrink_spec(spec, lambda s: same(s) is not None)
     g = same(small)
     return g if g is not None else f
+
+
+def report(ctx: C.Ctx, f: C.Failure) -> None:
+    """Shrink the first failure of each kind (that is the one vcheck writes as replay), within a total
+    time budget; later failures of a kind are recorded as found."""
+    import time
+    st = getattr(ctx, "_c11_shrink", None)
+    if st is None:
+        st = {"kinds": set(), "spent": 0.0}
+        ctx._c11_shrink = st
+    budget = 20.0 if ctx.tier == "quick" else 240.0
+    if f.what not in st["kinds"] and st["spent"] < budget and f.tags.get("stage") != "leanparse" \
+            and f.tags.get("stage") != "spectext":
+        st["kinds"].add(f.what)
+        t0 = time.time()
+        f = minimise(f, t0 + min(8.0, budget - st["spent"]))
+        st["spent"] += time.time() - t0
+    ctx.fail(f)
 
 
 # ------------------------------------------------------------------ run / replay
@@ -971,7 +1023,7 @@ def run_case(ctx: C.Ctx, spec, la, strip, codecs, branch=None, collect=None) -> 
         if key in seen:
             continue
         seen.add(key)
-        ctx.fail(minimise(f))
+        report(ctx, f)
     if collect is not None:
         collect.append(r)
 
@@ -1054,6 +1106,9 @@ def run(ctx: C.Ctx) -> None:
     for i in range(n):
         if not ctx.time_left():
             ctx.notes.append(f"stopped after {i} documents (time budget)")
+            break
+        if len(ctx.failures) >= 40:
+            ctx.notes.append(f"stopped after {i} documents: {len(ctx.failures)} failing inputs in hand")
             break
         spec = gen_spec(rng, profiles[i % len(profiles)] if i < 3 * len(profiles) else None)
         la = LAPARAMS_CHOICES[i % len(LAPARAMS_CHOICES)] if i < 2 * len(LAPARAMS_CHOICES) else rng.choice(LAPARAMS_CHOICES)
